@@ -322,11 +322,12 @@ def channel_inspect(ctx, c, key, cls, ref=None):
            'wires_to_track': c.partial if getattr(c, 'track', '') == 'partial' else getattr(c, 'track', 'named')}
     for t, ins in enumerate(c.inputs):
         sim.step(dict(ins))
+        tracked = set(tracer.trace)     # (`in tracer.trace` raises PyrtlError for unknown names)
         if ref is not None:
             # wires left out of an explicit wires_to_track list: inspect must still give the wire's value
             # (Simulation, FastSimulation) or refuse with PyrtlError (CompiledSimulation), never anything else
             for nm in ref:
-                if nm in tracer.trace:
+                if nm in tracked:
                     continue
                 try:
                     got = ('value', sim.inspect(nm))
